@@ -273,14 +273,24 @@ def gen_cases(rng, n):
       yield mb, qt, stats, desc, info
 
 
-def classify_raise(e):
+def classify_raise(e, model=None):
+  """Cause of an exception of quantize()/plan generation.  With the input
+  model at hand the buffer-sharing rejection is split by what is shared: a
+  CONSTANT (genuinely conflicting uses of one constant) or a runtime tensor."""
   msg = str(e)
   if isinstance(e, RuntimeError) and 'share the same buffer' in msg:
     import re
     m = re.search(r"The tensors (b'.*?') and (b'.*?') do not", msg)
+    kind = ''
+    if model is not None and m:
+      nm = m.group(1)[2:-1]
+      for g in model.subgraphs:
+        for t in g.tensors:
+          if og.tname(t) == nm:
+            kind = ':constant' if og.is_const(model, t) else ':runtime'
     if m and m.group(1) == m.group(2):
-      return 'BufferSharing:same-tensor'
-    return 'BufferSharing:distinct-tensors'
+      return 'BufferSharing:same-tensor' + kind
+    return 'BufferSharing:distinct-tensors' + kind
   if isinstance(e, ValueError) and 'list.remove' in msg:
     return 'ListRemove'
   if isinstance(e, ValueError) and 'both quantized and unquantized' in msg:
@@ -326,7 +336,7 @@ def main():
       raises[classify_raise(e)] += 1
       dist['plan_raises'] += 1
       if isinstance(desc, str):
-        viol.append({'key': 'C08:' + classify_raise(e), 'what':
+        viol.append({'key': 'C08:quantize:' + classify_raise(e, m_in), 'what':
                      f'shipped recipe {desc} rejected: {type(e).__name__}: {str(e)[:160]}',
                      'input': {'recipe': desc, 'model_hex': mb.hex() if len(mb) < 20000 else None}})
       continue
@@ -348,7 +358,7 @@ def main():
       m_out = e
       out_bytes = None
       if isinstance(desc, str):
-        viol.append({'key': 'C08:' + classify_raise(e), 'what':
+        viol.append({'key': 'C08:quantize:' + classify_raise(e, m_in), 'what':
                      f'shipped recipe {desc} rejected: {type(e).__name__}: {str(e)[:160]}',
                      'input': {'recipe': desc, 'model_hex': mb.hex() if len(mb) < 20000 else None}})
     lit = f'({c_model(ctx, m_in)},\n {vlib.coq_list([c_ttp(ctx, p) for p in params.values()])})'
